@@ -258,7 +258,7 @@ pub fn run(args: &Args) -> i32 {
     // B1 = q + 1 for every proper prime power q = p^k (k >= 2) up to a limit: the smallest bound that promises q, i.e. the
     // only bound at which an exponent computed one too small (rounding of a logarithm, < versus <=) shows
     {
-        let lim: u64 = if thorough { 1_100_000 } else { 120_000 };
+        let lim: u64 = if thorough { 250_000 } else { 120_000 }; // an event costs ~B1^2 in the driver's own trial factorisation of the blocks
         let mut p = 2u64;
         while p * p <= lim {
             if (2..p).all(|d| p % d != 0) {
